@@ -165,6 +165,12 @@ def make_jobs(ctx, focus: str):
             jobs.append({"opt": nm, "cfg": {"max_cycles": 2, "fitness_error": None}, "record": True,
                          "task": {"vars": [("contmulti", ([-8.0, -8.0, -8.0], [8.0, 8.0, 8.0]))], "obj": "sphere", "minmax": r.choice(["min", "max"]), "seed": r.randint(0, 10**6)},
                          "retask_vars": [("contmulti", ([-1.0, 2.0, -1.0], [1.0, 3.0, 0.0]))]})
+        # a narrow box far from the origin (offset / width = 1e5: cancellation in vectorised distance formulas) over 30 cycles, and an enormous cycle budget
+        # that stops after one cycle (cycle-budget dependent schedules at their extreme): candidates must stay NaN-free and in space
+        jobs.append({"opt": nm, "cfg": {"max_cycles": 30, "fitness_error": None}, "record": True,
+                     "task": {"vars": [("contmulti", ([100000.0] * 3, [100001.0] * 3))], "obj": "shifted", "minmax": r.choice(["min", "max"]), "seed": r.randint(0, 10**6)}})
+        jobs.append({"opt": nm, "cfg": {"max_cycles": r.choice([100000, 1000000]), "fitness_error": 1e9}, "record": True,
+                     "task": search.cont_task(obj="sphere", minmax=r.choice(["min", "max"]), seed=r.randint(0, 10**6))})
         # a REUSED instance: an earlier run on another task of the same class (other weights / another objective over the same space and seed) must leave nothing behind
         if r.random() < (0.3 if ctx.quick else 1.0):
             sd = r.randint(0, 10**6)
